@@ -199,7 +199,7 @@ class RefGraph:
         for h in self.order:
             n = self.nodes[h]
             nodes.append({
-                'id': n.id, 'name': n.name, 'full_name': n.full_name, 'type': n.type,
+                'id': n.id, 'name': n.name, 'type': n.type,
                 'asset': n.asset, 'ttc': n.ttc, 'defense_status': n.defense_status,
                 'existence_status': n.existence_status, 'is_viable': n.is_viable,
                 'is_necessary': n.is_necessary, 'tags': list(n.tags), 'mitre': n.mitre,
